@@ -21,7 +21,7 @@ func (r *Run) condShapesOf(fd *FuncDecl) map[string]int {
 }
 
 func (r *Run) condShapesRec(fd *FuncDecl, out map[string]int, seen map[*FuncDecl]bool, depth int) {
-	if seen[fd] || depth > 4 {
+	if seen[fd] || depth > 8 {
 		return
 	}
 	seen[fd] = true
